@@ -42,18 +42,21 @@ type Part struct {
 }
 
 // Main is the entry point of the harness binary.
-func Main() {
-	if len(os.Args) < 2 {
+func Main() { MainArgs(os.Args[1:]) }
+
+// MainArgs runs a command line (without the program name).
+func MainArgs(argv []string) {
+	if len(argv) < 1 {
 		fmt.Fprintln(os.Stderr, "usage: vh run|unit|replay|list ...")
 		os.Exit(2)
 	}
-	switch os.Args[1] {
+	switch argv[0] {
 	case "run":
-		cmdRun(os.Args[2:])
+		cmdRun(argv[1:])
 	case "unit":
-		cmdUnit(os.Args[2:])
+		cmdUnit(argv[1:])
 	case "replay":
-		cmdReplay(os.Args[2:])
+		cmdReplay(argv[1:])
 	case "list":
 		var props []string
 		for p := range registry {
@@ -66,7 +69,7 @@ func Main() {
 			}
 		}
 	default:
-		fmt.Fprintln(os.Stderr, "unknown command", os.Args[1])
+		fmt.Fprintln(os.Stderr, "unknown command", argv[0])
 		os.Exit(2)
 	}
 }
@@ -126,10 +129,12 @@ func cmdRun(args []string) {
 	budget := fs.Duration("budget", 10*time.Minute, "wall clock budget for exploration")
 	jobs := fs.Int("j", runtime.NumCPU(), "")
 	only := fs.String("only", "", "run only scenarios whose name contains this")
+	conform := fs.Bool("conform", false, "conformance build (unrewritten code under testing/synctest): only hist/enum scenarios with bound 0")
+	scen := fs.String("scenarios", "", "comma separated list of scenario names (conformance)")
 	fs.Parse(args)
 	start := time.Now()
 	scs := scenarios(*prop, *tier)
-	if len(scs) == 0 {
+	if len(scs) == 0 && !*conform {
 		fmt.Fprintf(os.Stderr, "no scenarios registered for %s\n", *prop)
 		os.Exit(2)
 	}
@@ -138,6 +143,17 @@ func cmdRun(args []string) {
 	for _, sc := range scs {
 		if *only != "" && !strings.Contains(sc.Name, *only) {
 			continue
+		}
+		if *conform {
+			ok := false
+			for _, w := range strings.Split(*scen, ",") {
+				if w != "" && strings.HasPrefix(sc.Name, w) {
+					ok = true
+				}
+			}
+			if !ok || sc.Bound != 0 {
+				continue
+			}
 		}
 		n := *jobs
 		if sc.Bound == 0 && sc.Mode == "sched" {
@@ -156,8 +172,14 @@ func cmdRun(args []string) {
 		go func(u *unit) {
 			defer wg.Done()
 			defer func() { <-sem }()
-			cmd := exec.Command(self, "unit", "-prop", *prop, "-tier", *tier, "-scenario", u.sc.Name,
-				"-shard", fmt.Sprint(u.shard), "-nshards", fmt.Sprint(u.nshards), "-out", u.out, "-deadline", fmt.Sprint(deadline.Unix()))
+			cargs := []string{"unit", "-prop", *prop, "-tier", *tier, "-scenario", u.sc.Name,
+				"-shard", fmt.Sprint(u.shard), "-nshards", fmt.Sprint(u.nshards), "-out", u.out, "-deadline", fmt.Sprint(deadline.Unix())}
+			cmd := exec.Command(self, cargs...)
+			if *conform {
+				// conformance build: the binary is a test binary, the command line travels in the environment
+				cmd = exec.Command(self, "-test.run", "^TestConform$", "-test.timeout", "0")
+				cmd.Env = append(os.Environ(), "VH_ARGS="+strings.Join(cargs, "\x1f"), "GODEBUG=asynctimerchan=0")
+			}
 			outb, err := cmd.CombinedOutput()
 			if err != nil {
 				u.err = fmt.Sprintf("shard %d of %s failed: %v\n%s", u.shard, u.sc.Name, err, clip(string(outb), 4000))
@@ -177,6 +199,9 @@ func cmdRun(args []string) {
 	}
 	wg.Wait()
 	part := &Part{Engine: "S", Property: *prop, Tier: *tier}
+	if *conform {
+		part.Engine = "C"
+	}
 	merged := map[string]*Stats{}
 	obs := map[string]map[uint64]bool{}
 	for _, u := range units {
@@ -207,6 +232,11 @@ func cmdRun(args []string) {
 			obs[u.sc.Name][h] = true
 		}
 		m.DistinctObs = len(obs[u.sc.Name])
+		m.ObsHashes = m.ObsHashes[:0]
+		for h := range obs[u.sc.Name] {
+			m.ObsHashes = append(m.ObsHashes, h)
+		}
+		sort.Slice(m.ObsHashes, func(i, j int) bool { return m.ObsHashes[i] < m.ObsHashes[j] })
 		if !st.Exhaustive {
 			m.Exhaustive = false
 			if st.CapHit != "" {
@@ -245,7 +275,7 @@ func cmdRun(args []string) {
 	// vacuity: required counters
 	for _, sc := range scs {
 		m := merged[sc.Name]
-		if m == nil || !m.Exhaustive || len(m.Violations) > 0 {
+		if m == nil || !m.Exhaustive || len(m.Violations) > 0 || *conform {
 			continue // a violation cuts executions short; vacuity is judged on clean runs only
 		}
 		for _, c := range sc.NeedCounters {
